@@ -154,7 +154,7 @@ def parseFloat (s : Str) : FloatRes :=
           let (esg, t1) := signOf t
           let (ed, t2) := digitRun t1 false []
           if ed.isEmpty || !t2.isEmpty then .bad
-          else if digitsVal ed > 400 then .special
+          else if digitsVal ed > 400 then (if mant == 0 || esg < 0 then .val 0 else .special)  -- 0 / underflow / overflow
           else .val (sg * mant * pow10 (esg * (digitsVal ed : Int)))
         else .bad
 
